@@ -31,6 +31,11 @@ def blkLine (par : Parent) (a : Addr) : String :=
     | none => s!"P blk size={b.size} h=-"
     | some d => s!"P blk size={b.size} h={hex32 (digest d)}"
 
+/-- white-box: did the realloc answer with another address (the harness parent's keep/move rule, or the
+emulation's `old ≥ new` rule) -/
+def movedLine (old new : Addr) : List String :=
+  if new = 0 then [] else [s!"W moved={if new = old then 0 else 1}"]
+
 def statLine (tr : Tracer) : String := s!"P bytes={tr.bytes} count={tr.count}"
 
 def addrOf (st : St) (id : String) : Addr := (st.ids.lookup id).getD 0
@@ -112,7 +117,7 @@ def plain (st : St) (s : Seq) (p : Parsed) : St × List String :=
     let dest := if p = 0 then pickFresh s.par else reallocDest s.par p old new keep
     let (s', r) := s.step (.realloc p old new dest sidRe)
     let a := match r with | .ptr a => a | _ => 0
-    (setId { st with seq := some s' } id a, [blkLine s'.par a, statLine s'.tr])
+    (setId { st with seq := some s' } id a, [blkLine s'.par a] ++ movedLine p a ++ [statLine s'.tr])
   | .rel id =>
     let (s', _) := s.step (.release (addrOf st id))
     (setId { st with seq := some s' } id 0, [statLine s'.tr])
@@ -159,7 +164,8 @@ def pointAfter : PC → Option String
 
 def oracleFor (sh : Sh) (keep : Bool) : PC → Addr
   | .parRealloc a old new _ => if a = 0 then pickFresh sh.par else reallocDest sh.par a old new keep
-  | _ => pickFresh sh.par
+  | .parAcq .. => pickFresh sh.par
+  | _ => 0        -- no other action consults the wrapped allocator
 
 /-- run pool entry `i` to completion without interruption; returns the address it hands to the client -/
 def finish (keep : Bool) (i : Nat) : Nat → Sys → Addr → Sys × Addr
@@ -174,12 +180,15 @@ def finish (keep : Bool) (i : Nat) : Nat → Sys → Addr → Sys × Addr
 /-- cross-check of the two semantics: the same call run action by action, alone, on the
 interleaving model must end in the state the sequential model computes -/
 def stepSemAgrees (st : St) (s s' : Seq) (p : Parsed) : Bool :=
-  let owned := st.ids.map (fun e => (e.2, match s.par.get e.2 with | some b => b.size | none => 0))
+  let owned := s.par.blocks.map (fun e => (e.1, e.2.size))     -- every live block is held by the client between calls
   let sys0 : Sys := { sh := { tr := s.tr, par := s.par, lock := false, owned := owned }, pool := [] }
   let sys1 := AwsVerif.MemTrace.step sys0 (.start (toClient st s p))
   let (sys2, _) := finish (keepOf p) 0 64 sys1 0
   sys2.sh.tr.allocated == s'.tr.allocated && sys2.sh.tr.allocs == s'.tr.allocs && sys2.sh.tr.stacks == s'.tr.stacks
-    && sys2.sh.tr.clock == s'.tr.clock && sys2.sh.par.blocks == s'.par.blocks && !sys2.sh.lock
+    && sys2.sh.tr.clock == s'.tr.clock
+    && sys2.sh.par.blocks.map (fun e => (e.1, e.2.size, e.2.cap)) == s'.par.blocks.map (fun e => (e.1, e.2.size, e.2.cap))
+    && sys2.sh.par.blocks.head? == s'.par.blocks.head?      -- (a call touches the contents of the front block only)
+    && !sys2.sh.lock
     && sys2.pool.all (· == .done)
 
 structure Inj where
@@ -188,9 +197,10 @@ structure Inj where
   op : Parsed
 
 /-- lines printed by a completed operation (same shape as `plain`) -/
-def opLines (p : Parsed) (s : Sys) (ret : Addr) (dumpBefore : Option DumpOut) : List String :=
+def opLines (p : Parsed) (s : Sys) (old ret : Addr) (dumpBefore : Option DumpOut) : List String :=
   match p with
-  | .acq .. | .cal .. | .re .. => [blkLine s.sh.par ret, statLine s.sh.tr]
+  | .re .. => [blkLine s.sh.par ret] ++ movedLine old ret ++ [statLine s.sh.tr]
+  | .acq .. | .cal .. => [blkLine s.sh.par ret, statLine s.sh.tr]
   | .dump => dumpLines dumpBefore ++ [statLine s.sh.tr]
   | _ => [statLine s.sh.tr]
 
@@ -221,7 +231,7 @@ def atPoint (r : Run) (inj : Inj) (seqNow : Seq) (k : String) : Run :=
   let ret := match inj.op with | .rel _ => 0 | _ => ret
   let st := match idOf inj.op with | some id => setId st id ret | none => st
   { r with sys := s2, st := st, fired := true,
-           out := r.out ++ (opLines inj.op s2 ret d).map (fun l => (l.take 1).toString ++ " @inj" ++ (l.drop 1).toString) }
+           out := r.out ++ (opLines inj.op s2 (match idOf inj.op with | some id => addrOf r.st id | none => 0) ret d).map (fun l => (l.take 1).toString ++ " @inj" ++ (l.drop 1).toString) }
 
 def mainLoop (inj : Inj) (keep : Bool) : Nat → Run → Addr → Run × Addr
   | 0, r, a => (r, a)
@@ -241,7 +251,8 @@ def mainLoop (inj : Inj) (keep : Bool) : Nat → Run → Addr → Run × Addr
       mainLoop inj keep fuel r a
 
 def injected (st : St) (s : Seq) (main : Parsed) (inj : Inj) : St × List String :=
-  let owned := st.ids.map (fun e => (e.2, match s.par.get e.2 with | some b => b.size | none => 0))
+  let oldMain := match idOf main with | some id => addrOf st id | none => 0
+  let owned := s.par.blocks.map (fun e => (e.1, e.2.size))
   let sys0 : Sys := { sh := { tr := s.tr, par := s.par, lock := false, owned := owned }, pool := [] }
   let cop := toClient st s main
   let sys1 := step sys0 (.start cop)
@@ -251,7 +262,7 @@ def injected (st : St) (s : Seq) (main : Parsed) (inj : Inj) : St × List String
   -- the dump reads the tables while it holds the mutex: what it prints is the state at that action
   let d := r.dump
   let st := { st with seq := some { tr := r.sys.sh.tr, par := r.sys.sh.par } }
-  (st, r.out ++ (if r.fired then [] else ["P @inj unreached"]) ++ opLines main r.sys ret d)
+  (st, r.out ++ (if r.fired then [] else ["P @inj unreached"]) ++ opLines main r.sys oldMain ret d)
 
 def parseLevel : String → Option Level
   | "none" => some .none | "bytes" => some .bytes | "stacks" => some .stacks | _ => none
